@@ -531,6 +531,13 @@ def catalog(thorough):
     add(get(UEnum, "u16", [("unit", []), ("tuple", [Vec(U8, U8)])], 0, True))
     add(get(UEnum, "u32", [("unit", []), ("tuple", [LE16, Str(U8)])], 0, True))
     add(Flex(Vec(U32, U8), U8)); add(Flex(Vec(U16, U8), U8))
+    # a tail vector of composite elements whose SIZE is not a multiple of the struct's ALIGN (the struct's extent
+    # is the rounded-up extent of its tail)
+    add(get(UStruct, [U64, Vec(Arr(U32, 2), U32)])); add(get(UStruct, [U32, Vec(Arr(U8, 3), U8)])); add(get(UStruct, [U64, Vec(P_u8u32, U16)]))
+    # unsized enums whose strictly smallest variant is declared LAST / beyond a power-of-two variant count
+    ue("u8", [("named", [U32, Vec(U8, U16)]), ("tuple", [U32]), ("unit", [])], 2)
+    ue("u8", [("tuple", [U16]), ("tuple", [U32]), ("tuple", [U8, V88]), ("tuple", [U64]), ("unit", [])], 4)
+    add(get(UEnum, "u8", [("tuple", [LE32, Vec(U8, LE16)]), ("tuple", [LE16]), ("unit", [])], 2, True))
     # a FlexVec whose offset type is more aligned than its items, behind a prefix that is not a multiple of it
     add(get(UStruct, [U8, Flex(Str(U8), U16)])); add(get(UStruct, [U8, Flex(V88, U32)]))
     add(get(UEnum, "u8", [("unit", []), ("tuple", [U8, Flex(U8, U16)])], 0))
